@@ -385,7 +385,7 @@ def consolidateTextLines (e : Env) (st : St) (lines : List Str) : Except Err (Li
   let some first := lines.head? | throw (.invalidCodePath "IndexError: lines[0]")
   let lines :=
     if first.isEmpty && isLastChild e.root lastNode && legitAfter e.root lastNode then lines ++ [[]] else lines
-  let lines := if lineOffset e st == 0 && first.isEmpty then lines.drop 1 else lines
+  let lines := if st.offset == 0 && first.isEmpty then lines.drop 1 else lines
   match lines.reverse with
   | [] :: l :: rest => return (rest.reverse ++ [rtrim pyWs l, []])
   | _ => return lines
@@ -395,7 +395,7 @@ def serializeTextOverLines (e : Env) (st : St) (content : Str) : Except Err St :
   let some firstNode := st.unwritten.head? | throw (.invalidCodePath "IndexError: no unwritten text nodes")
   let some lastNode := st.unwritten.getLast? | throw (.invalidCodePath "IndexError: no unwritten text nodes")
   let (st, lines) ←
-    if lineOffset e st == 0 then
+    if st.offset == 0 then
       let lines := (if legitBefore e.root firstNode then [[]] else []) ++ Wrap.wrapText e.width (ltrim pyWs content)
       pure (st, lines)
     else do
@@ -438,14 +438,14 @@ def serializeText (e : Env) (st : St) : Except Err St := do
   let st ←
     if avail == (rtrim pyWs content).length && legitAfter e.root lastNode then
       -- text fits perfectly
-      if lineOffset e st == 0 then
+      if st.offset == 0 then
         pure (write st (textPieces (indentN e.o st.level) (ltrim pyWs content) true true))
       else
         pure (write st (textPieces [] content true true))
     else if avail > content.length then
       -- text fits current line
       let (pre, content) :=
-        if lineOffset e st == 0 then (indentN e.o st.level, ltrim pyWs content) else ([], content)
+        if st.offset == 0 then (indentN e.o st.level, ltrim pyWs content) else ([], content)
       let lineBreak ←
         if isLastChild e.root lastNode then pure true
         else
